@@ -228,8 +228,17 @@ static RunResult c18_exec(const Plan &p) {
                     else if (o.dead != c.dead[role]) { field = "dead"; }
                     else if (!c.dead[role] && o.first_error != c.first_error[role]) { field = "error_code"; }   // once dead, which later call reports the error depends on how much was fed after death
                     else if (o.complete_before_delivery != c.complete_before_delivery[role]) { field = "complete_before_delivery"; }
+                    std::string where;
+                    if (field == "output_bytes") {
+                        // locate the first differing byte and the record it falls into (record header types/lengths are in the clear)
+                        size_t n = o.out.size() < c.out[role].size() ? o.out.size() : c.out[role].size(), d = 0;
+                        while (d < n && o.out[d] == c.out[role][d]) { d++; }
+                        size_t off = 0; int ri = 0;
+                        while (off + 5 <= c.out[role].size()) { size_t l = 5 + ((size_t) c.out[role][off + 3] << 8 | c.out[role][off + 4]); if (d < off + l) { break; } off += l; ri++; }
+                        where = " [first difference at output byte " + std::to_string(d) + ", record #" + std::to_string(ri) + " (type " + std::to_string(off < c.out[role].size() ? c.out[role][off] : -1) + "), byte " + std::to_string(d - off) + " of it]";
+                    }
                     if (!field.empty()) {
-                        res.violate("chunking_changes_outcome", field + "," + ctx,
+                        res.violate("chunking_changes_outcome", field + "," + ctx, where +
                                     "same inbound bytes, partition '" + std::string(part_name(part)) + "' drain " + std::to_string(drainm) + ": " + field + " differs from the reference run (ref complete=" +
                                     std::to_string(c.complete[role]) + " delivered=" + std::to_string(c.delivered[role].size()) + " out=" + std::to_string(c.out[role].size()) + " err=" + std::to_string(c.first_error[role]) +
                                     "; replay complete=" + std::to_string(o.complete) + " delivered=" + std::to_string(o.delivered.size()) + " out=" + std::to_string(o.out.size()) + " err=" + std::to_string(o.first_error) + ")");
